@@ -378,12 +378,14 @@ def tree_paths(t, acc=None):
     return out
 
 
-def fmt_skin(gidx, bind, joints, rows, jo, wo):
+def fmt_skin(gidx, bind, joints, rows, jcols, wcols):
+    """canonical text of a decoded skin: groups = skin[i] as index tuples, pairs = zip(joint_index[i], weight_index[i])"""
     return 'ok geom=%d bind=%s joints=%s groups=%s pairs=%s' % (
         gidx, ','.join(str(x) for x in bind),
         ';'.join('%s:%s' % (n, ','.join(str(x) for x in m)) for n, m in joints),
         ''.join('(%s)' % ' '.join(','.join(str(x) for x in r) for r in g) for g in rows),
-        ''.join('(%s)' % ' '.join('%d:%d' % (r[jo], r[wo]) for r in g) for g in rows))
+        ''.join('(%s)' % ' '.join('%d:%d' % (j, w) for j, w in zip(js, ws)) + ('!' if len(js) != len(ws) else '')
+                for js, ws in zip(jcols, wcols)) + ('!' if len(jcols) != len(wcols) else ''))
 
 
 def truth_bound(c):
@@ -396,12 +398,10 @@ def truth_bound(c):
 # ----------------------------------------------------------------------------- the real implementation
 
 def exact_ints(arr):
+    """values of an integer-valued case as ints; anything that is not an integer stays a float (and then differs from the truth)"""
     import numpy
     a = numpy.asarray(arr, dtype=numpy.float64).reshape(-1)
-    r = numpy.rint(a)
-    if not numpy.array_equal(a, r):
-        raise AssertionError('non-integer value where the case is integer-valued: %r' % (a.tolist(),))
-    return [int(x) for x in r]
+    return [int(x) if numpy.isfinite(x) and x == int(x) else repr(float(x)) for x in a]
 
 
 def errclass(e):
@@ -443,7 +443,7 @@ def run_impl(c):
         for i, (g, w) in enumerate(ctl.target_list):
             if ctl[i][0] is not g:
                 problem = 'morph[i] differs from target_list[i]'
-            pairs.append('%d:%d' % (gindex(g), exact_ints([float(w) * 8])[0]))
+            pairs.append('%d:%s' % (gindex(g), exact_ints([float(w) * 8])[0]))
         line = 'ok base=%d pairs=%s' % (gindex(ctl.source_geometry), ','.join(pairs))
     else:
         if not isinstance(ctl, collada.controller.Skin):
@@ -451,25 +451,17 @@ def run_impl(c):
         rows = [[[int(x) for x in r] for r in ctl[i]] for i in range(len(ctl))]
         jrows = [[int(x) for x in ctl.joint_index[i]] for i in range(len(ctl.joint_index))]
         wrows = [[int(x) for x in ctl.weight_index[i]] for i in range(len(ctl.weight_index))]
-        exp_j = [[r[c['jo']] for r in g] for g in rows]
-        exp_w = [[r[c['wo']] for r in g] for g in rows]
-        if jrows != exp_j or wrows != exp_w:
-            problem = 'joint_index/weight_index are not the offset columns of skin[i]: %r %r vs rows %r' % (jrows, wrows, rows)
-        if len(ctl) != len(rows) or len(ctl.joint_index) != len(rows):
-            problem = 'len(skin) differs from the number of groups'
+        if len(ctl) != len(rows) or len(jrows) != len(rows) or len(wrows) != len(rows):
+            problem = 'len(skin), joint_index and weight_index disagree on the number of vertices'
         joints = [(str(n), exact_ints(m)) for n, m in ctl.joint_matrices.items()]
-        for g in rows:
-            for r in g:
-                if len(r) != max(c['jo'], c['wo']) + 1:
-                    problem = 'index tuple of wrong width %r' % (r,)
-        line = fmt_skin(gindex(ctl.geometry), exact_ints(ctl.bind_shape_matrix), joints, rows, c['jo'], c['wo'])
+        line = fmt_skin(gindex(ctl.geometry), exact_ints(ctl.bind_shape_matrix), joints, rows, jrows, wrows)
         # in-range oracle on what was accepted
         nwj = len(ctl.weight_joints)
         nw = len(ctl.weights)
-        for g in rows:
-            for r in g:
-                if not (-1 <= r[c['jo']] < nwj) or not (0 <= r[c['wo']] < nw):
-                    problem = 'accepted skin has joint/weight index out of range: tuple %r, %d joints, %d weights' % (r, nwj, nw)
+        for js, ws in zip(jrows, wrows):
+            for j, w in zip(js, ws):
+                if not (-1 <= j < nwj) or not (0 <= w < nw):
+                    problem = 'accepted skin has joint/weight index out of range: (%d, %d) with %d joints, %d weights' % (j, w, nwj, nw)
     bound = None
     if c['tree'] is not None:
         try:
@@ -560,7 +552,8 @@ def reference2(c):
     d = {}
     for i, n in enumerate(c['names']):
         d[n] = c['mats'][16 * i:16 * i + 16]
-    return fmt_skin(gidx, c['bind'] or IDENT, list(d.items()), rows, c['jo'], c['wo']), why
+    return fmt_skin(gidx, c['bind'] or IDENT, list(d.items()), rows, [[r[c['jo']] for r in g] for g in rows],
+                    [[r[c['wo']] for r in g] for g in rows]), why
 
 
 def reference(c):
